@@ -31,6 +31,7 @@ fn fault_cfg(seed: u64, index: u64) -> HistCfg {
         force_two_fats: false,
         fsinfo: None,
         full_dir: false,
+        mini_deadline: None,
     }
 }
 
